@@ -1,0 +1,88 @@
+//go:build verif
+
+package server
+
+import (
+	"encoding/json"
+	"fmt"
+	"os"
+	"path/filepath"
+	"sync"
+	"sync/atomic"
+
+	"github.com/bbockelm/cedar/security"
+)
+
+// Verification hooks (build tag verif): one "Dispatch" event immediately before a
+// registered handler is invoked (the action Run(cmd) of /verif/spec/Server.tla),
+// carrying the command's CURRENT policy, what the session reports and the
+// stream's real state.
+const verifOn = true
+
+// VerifSink receives every event when non-nil.
+var VerifSink func(rec map[string]any)
+
+var (
+	verifSeq  uint64
+	verifMu   sync.Mutex
+	verifFile *os.File
+)
+
+func init() {
+	dir := os.Getenv("CEDAR_VERIF_TRACE_DIR")
+	if dir == "" {
+		return
+	}
+	_ = os.MkdirAll(dir, 0o755)
+	f, err := os.OpenFile(filepath.Join(dir, fmt.Sprintf("server-%d.ndjson", os.Getpid())), os.O_CREATE|os.O_WRONLY|os.O_APPEND, 0o644)
+	if err != nil {
+		return
+	}
+	verifFile = f
+	VerifSink = func(rec map[string]any) {
+		b, err := json.Marshal(rec)
+		if err != nil {
+			return
+		}
+		verifMu.Lock()
+		_, _ = verifFile.Write(append(b, '\n'))
+		verifMu.Unlock()
+	}
+}
+
+func (s *Server) verifDispatch(path string, cmd int, followOn bool, c *Conn, neg *security.SecurityNegotiation) {
+	sink := VerifSink
+	if sink == nil {
+		return
+	}
+	rec := map[string]any{"q": atomic.AddUint64(&verifSeq, 1), "ev": "Dispatch", "path": path, "cmd": cmd, "followOn": followOn}
+	h, ok := s.lookup(cmd)
+	rec["registered"] = ok
+	rec["raw"] = ok && h.raw
+	req := s.SecurityConfig
+	if s.SecurityConfigForCommand != nil {
+		if perCmd := s.SecurityConfigForCommand(cmd); perCmd != nil {
+			req = perCmd
+		}
+	}
+	if req != nil {
+		rec["reqAuth"] = string(req.Authentication)
+		rec["reqEnc"] = string(req.Encryption)
+		rec["reqInt"] = string(req.Integrity)
+	}
+	rec["authorizer"] = s.Authorizer != nil
+	if c != nil && c.Stream != nil {
+		rec["streamEnc"] = c.Stream.IsEncrypted()
+	}
+	if neg != nil {
+		rec["auth"] = neg.Authentication
+		rec["enc"] = neg.Encryption
+		rec["resumed"] = neg.SessionResumed
+		rec["user"] = neg.User
+		rec["method"] = string(neg.NegotiatedAuth)
+		if s.Authorizer != nil && c != nil {
+			rec["authorizedNow"] = s.authorized(cmd, c.RemoteAddr, neg.User)
+		}
+	}
+	sink(rec)
+}
